@@ -492,7 +492,12 @@ pub fn check_concat(a: &HexSpec, b: &HexSpec) -> Result<(), (String, String)> {
     }
 }
 
+fn ca_first(seen: &mut std::collections::BTreeSet<(usize, usize)>, la: usize, lb: usize) -> bool {
+    seen.insert((la, lb))
+}
+
 pub fn run_c16(cfg: &ShardCfg, out: &mut ShardOut) {
+    let mut first_of_pair = std::collections::BTreeSet::new();
     let mut rng = Rng::new(mix(&[cfg.seed, 16]));
     let max_len = if cfg.thorough { 24 } else { 16 };
     let mut sw = Sweep { cfg, out, viol_count: BTreeMap::new() };
@@ -507,7 +512,12 @@ pub fn run_c16(cfg: &ShardCfg, out: &mut ShardOut) {
                 let cbs = contents(&mut rng, lb);
                 // (the empty byte string has one content only: nothing may be skipped there)
                 let skip = usize::from(cbs.len() > 1);
-                for cb in cbs.into_iter().skip(skip).take(if cfg.thorough { 5 } else { 3 }) {
+                let cbs: Vec<Vec<u8>> = cbs.into_iter().skip(skip).take(if cfg.thorough { 5 } else { 3 }).collect();
+                if !cbs.is_empty() && ca_first(&mut first_of_pair, la, lb) {
+                    // obligation of the sweep, checked by the driver: every pair of lengths gets at least one evaluation
+                    sw.out.counters.inc("c16.length-pairs-with-an-evaluated-case");
+                }
+                for cb in cbs {
                     for (sa, na) in reprs(&mut rng, &ca) {
                         for (sb, nb) in reprs(&mut rng, &cb) {
                             let boundary = la <= 9 && la + lb >= 7 && la + lb <= 10 || la == 8 || la == 9;
